@@ -83,3 +83,7 @@ mod tests {
         }
     }
 }
+
+#[cfg(feature = "pendulum_project_ntpd_rs_verif")]
+#[path = "/verif/hooks/statime-wire/common_port_identity.rs"]
+pub mod vh_common_port_identity;
